@@ -84,6 +84,8 @@ def main(rep, tier, only):
             for op, i in zip(ops, idx):
                 if spec["kind"] == "ALLOF":
                     def verdict(r, v, rank_of, _s=spec):
+                        if isinstance(v, tuple) and v and v[0] == "k" and str(v[1]) in ("0", "1", "true", "false"):
+                            v = sx.TRUE if str(v[1]) in ("1", "true") else sx.FALSE       # a literal truth value returned by a predicate
                         got = (v == sx.TRUE) if v in (sx.TRUE, sx.FALSE) else None
                         if got is None or got != bool(_s["pred"](r)):
                             return "implementation %s, specification %s (%s)" % (sx.show(v), bool(_s["pred"](r)), _s["text"])
@@ -338,7 +340,20 @@ def main(rep, tier, only):
                 dim = T.show(T.norm(u, n["args"][1]))
                 # the storage the offset is applied to: enclosing subscript / pointer addition in the same function
                 base = None
+                # the offset may first be given a name: a local initialised from the call stands for it
+                holders = [v["id"] for v in F.walk(fn.get("body"), into_lambdas=True)
+                           if v.get("k") == "var" and v.get("init") is not None and any(x is n for x in F.walk(v["init"]))]
+
+                def carries(e):
+                    return any(x is n or (x.get("k") == "ref" and x.get("id") in holders) for x in F.walk(e))
                 for m in F.walk(fn.get("body"), into_lambdas=True):
+                    if m.get("k") == "subscript" and carries(m.get("idx")):
+                        base = T.show(T.norm(u, m["base"]))
+                    if m.get("k") == "binop" and m.get("op") == "+" and carries(m.get("r")):
+                        base = T.show(T.norm(u, m["l"]))
+                    if m.get("k") == "call" and m.get("opcall") in ("[]", "+") and m.get("recv") is not None and any(carries(a) for a in m.get("args", [])):
+                        base = T.show(T.norm(u, m["recv"]))
+                for m in []:
                     if m.get("k") == "subscript" and any(x is n for x in F.walk(m.get("idx"))):
                         base = T.show(T.norm(u, m["base"]))
                     if m.get("k") == "binop" and m.get("op") == "+" and any(x is n for x in F.walk(m.get("r"))):
